@@ -16,7 +16,7 @@ EXTENDS Scenarios
 
 TargetKinds == {"local", "aux1", "aux2", "aux3", "trans", "selfrec", "mutual", "arrayself", "mapself",
                 "auxarrayself", "anonprop", "anonitems", "anonallof", "anonsibling", "sharedparam", "sharedresp", "diamond",
-                "uptrans", "crosstrans", "recdep"}
+                "uptrans", "crosstrans", "recdep", "recmap"}
 Shapes      == {"prim", "object", "arrayref", "tuple", "allof", "map", "nested", "ptrarray", "ref"}
 HolderKinds == {"prop", "items", "tuple", "addprops", "additems", "allof", "alias", "opbody", "pathbody",
                 "code", "default", "sharedparam", "sharedresp", "nested", "opnested", "opitems",
@@ -26,7 +26,7 @@ AuxHolders  == {"auxresp", "auxparam", "auxpathitem"}
 SecondKinds == {"none", "code", "prop2", "same"}
 Collisions  == {"none", "exact", "case", "twoimports", "gennames"}
 
-AuxTargets  == {"aux1", "aux2", "aux3", "trans", "selfrec", "mutual", "auxarrayself", "diamond", "uptrans", "crosstrans", "recdep"}
+AuxTargets  == {"aux1", "aux2", "aux3", "trans", "selfrec", "mutual", "auxarrayself", "diamond", "uptrans", "crosstrans", "recdep", "recmap"}
 AnonTargets == {"anonprop", "anonitems", "anonallof", "anonsibling"}
 SharedPtrTargets == {"sharedparam", "sharedresp"}
 
@@ -92,6 +92,12 @@ TargetOf(t, s) ==
                        aux |-> [aux1 |-> AuxDoc([N_2 |-> ObjP([N_3 |-> RefTo(<<"aux1", "definitions", "N_2">>), N_4 |-> RefTo(<<"aux1", "definitions", "N_1">>),
                                                                N_5 |-> RefTo(<<"aux1", "definitions", "N_1">>)]),
                                                  N_1 |-> Body(s, HelperIn("aux1")), N_7 |-> HelperDef])], params |-> <<>>, resps |-> <<>>]
+    \* a recursive imported definition that uses a map-of-itself definition of a third document: in Expand mode both recursions survive
+    \* the expansion, and the third document is met under two spellings of its location
+    [] t = "recmap" -> [ref |-> <<"aux1", "definitions", "N_1">>, rootdefs |-> <<>>,
+                       aux |-> [aux1 |-> AuxDoc([N_1 |-> ObjP([N_3 |-> RefTo(<<"aux1", "definitions", "N_1">>), N_4 |-> RefTo(<<"aux3", "definitions", "N_2">>),
+                                                               N_5 |-> Body(s, HelperIn("aux1"))]), N_7 |-> HelperDef]),
+                                aux3 |-> AuxDoc([N_2 |-> Obj([additionalProperties |-> RefTo(<<"aux3", "definitions", "N_2">>)])])], params |-> <<>>, resps |-> <<>>]
     [] t = "arrayself" -> [ref |-> <<"root", "definitions", "N_1">>,
                        rootdefs |-> [N_1 |-> Mk([type |-> "array"], [items |-> RefTo(<<"root", "definitions", "N_1">>)])],
                        aux |-> <<>>, params |-> <<>>, resps |-> <<>>]
@@ -241,5 +247,5 @@ Assemble(t, s, h, h2, c) ==
                 ELSE auxs
   IN ("root" :> root) @@ auxs2
 
-Cyclic(t) == t \in {"selfrec", "mutual", "arrayself", "mapself", "auxarrayself", "recdep"}
+Cyclic(t) == t \in {"selfrec", "mutual", "arrayself", "mapself", "auxarrayself", "recdep", "recmap"}
 =============================================================================
